@@ -43,6 +43,149 @@ pub fn strip_custom(wasm: &[u8], name: &str) -> Vec<u8> {
     out
 }
 
+fn leb(out: &mut Vec<u8>, mut v: u32) {
+    loop {
+        let b = (v & 0x7f) as u8;
+        v >>= 7;
+        if v == 0 {
+            out.push(b);
+            break;
+        }
+        out.push(b | 0x80);
+    }
+}
+
+fn read_leb(b: &[u8], mut p: usize) -> Option<(u32, usize)> {
+    let (mut v, mut shift) = (0u32, 0);
+    loop {
+        let x = *b.get(p)?;
+        p += 1;
+        v |= ((x & 0x7f) as u32) << shift;
+        if x & 0x80 == 0 {
+            return Some((v, p));
+        }
+        shift += 7;
+        if shift > 28 {
+            return None;
+        }
+    }
+}
+
+/// Give the k-th function import (k = its function index) the field name `f(k, module, field)`; everything else
+/// stays byte for byte. Used to make imports that share a (module, field) pair distinguishable for the host of
+/// the reference interpreter.
+pub fn rename_func_imports(wasm: &[u8], f: &dyn Fn(u32, &str, &str) -> String) -> Option<Vec<u8>> {
+    for p in Parser::new(0).parse_all(wasm) {
+        if let Payload::ImportSection(r) = p.ok()? {
+            let range = r.range();
+            let body = &wasm[range.start..range.end];
+            let (count, mut pos) = read_leb(body, 0)?;
+            let mut new_body = Vec::new();
+            leb(&mut new_body, count);
+            let mut k = 0u32;
+            for imp in r.clone().into_iter() {
+                let imp = imp.ok()?;
+                let (ml, p1) = read_leb(body, pos)?;
+                let mstart = p1;
+                let (fl, p2) = read_leb(body, mstart + ml as usize)?;
+                let fstart = p2;
+                let desc_start = fstart + fl as usize;
+                // length of the descriptor: up to the next entry, found by re-reading the next entry's start
+                let module = std::str::from_utf8(&body[mstart..mstart + ml as usize]).ok()?;
+                let field = std::str::from_utf8(&body[fstart..desc_start]).ok()?;
+                let desc_len = import_desc_len(&body[desc_start..])?;
+                let is_func = matches!(imp.ty, wasmparser::TypeRef::Func(_));
+                let new_field = if is_func { f(k, module, field) } else { field.to_string() };
+                if is_func {
+                    k += 1;
+                }
+                leb(&mut new_body, ml);
+                new_body.extend_from_slice(module.as_bytes());
+                leb(&mut new_body, new_field.len() as u32);
+                new_body.extend_from_slice(new_field.as_bytes());
+                new_body.extend_from_slice(&body[desc_start..desc_start + desc_len]);
+                pos = desc_start + desc_len;
+            }
+            // header: id byte 2 and size LEB in front of the payload
+            let mut hdr = None;
+            for len in 1..=5usize {
+                if range.start < len + 1 {
+                    break;
+                }
+                if let Some((v, e)) = read_leb(wasm, range.start - len) {
+                    if e == range.start && v as usize == range.end - range.start && wasm[range.start - len - 1] == 2 {
+                        hdr = Some(range.start - len - 1);
+                        break;
+                    }
+                }
+            }
+            let hdr = hdr?;
+            let mut out = wasm[..hdr].to_vec();
+            out.push(2);
+            leb(&mut out, new_body.len() as u32);
+            out.extend_from_slice(&new_body);
+            out.extend_from_slice(&wasm[range.end..]);
+            return Some(out);
+        }
+    }
+    Some(wasm.to_vec())
+}
+
+/// Byte length of an import descriptor (kind byte + type).
+fn import_desc_len(b: &[u8]) -> Option<usize> {
+    let kind = *b.first()?;
+    let limits = |b: &[u8], mut p: usize| -> Option<usize> {
+        let flags = *b.get(p)?;
+        p += 1;
+        let (_, q) = read_leb64(b, p)?;
+        p = q;
+        if flags & 1 != 0 {
+            let (_, q) = read_leb64(b, p)?;
+            p = q;
+        }
+        if flags & 8 != 0 {
+            let (_, q) = read_leb(b, p)?;
+            p = q;
+        }
+        Some(p)
+    };
+    match kind {
+        0 => read_leb(b, 1).map(|(_, p)| p),
+        1 => {
+            // reftype (one byte for funcref/externref, longer forms start with 0x63/0x64) then limits
+            let mut p = 1;
+            if matches!(*b.get(p)?, 0x63 | 0x64) {
+                p += 1;
+                let (_, q) = read_leb(b, p)?;
+                p = q;
+            } else {
+                p += 1;
+            }
+            limits(b, p)
+        }
+        2 => limits(b, 1),
+        3 => Some(3),
+        4 => read_leb(b, 2).map(|(_, p)| p),
+        _ => None,
+    }
+}
+
+fn read_leb64(b: &[u8], mut p: usize) -> Option<(u64, usize)> {
+    let (mut v, mut shift) = (0u64, 0);
+    loop {
+        let x = *b.get(p)?;
+        p += 1;
+        v |= ((x & 0x7f) as u64) << shift;
+        if x & 0x80 == 0 {
+            return Some((v, p));
+        }
+        shift += 7;
+        if shift > 63 {
+            return None;
+        }
+    }
+}
+
 pub type Producers = Vec<(String, Vec<(String, String)>)>;
 
 pub fn producers(data: &[u8]) -> Result<Producers, String> {
